@@ -19,7 +19,7 @@ RULE = ("cases = (n_up,n_dn) with both spins present x 1-3 Cholesky matrices x r
 MIN_NONTRIVIAL = {"quick": 15, "thorough": 100}
 TIMEOUT = {"quick": 2400, "thorough": 10800}
 ASSUMPTIONS = ["unrestricted propagator (the only one defining propagate_free)", "n_dn >= 1 (per-spin constants divide by nelec[s])", "dt <= 0.02 for the ladder"]
-REQUIRED_COUNTERS = {"bookkeeping_steps": 30, "taylor": 10, "ladders": 4}
+REQUIRED_COUNTERS = {"bookkeeping_steps": 30, "taylor": 10, "ladders": 4, "driver_trajectories": 6, "driver_printed_means": 1}
 
 
 def gen_cases(tier, seed):
@@ -42,6 +42,11 @@ def gen_cases(tier, seed):
                           "nexp": int(rng.choice([6, 10])), "shape": [int(rng.integers(1, 4)), int(rng.integers(2, 4))], "rdm1": str(rng.choice(["trial", "random"])),
                           "ene0": float(rng.normal()), "dt": float(rng.choice([0.01, 0.05])), "nw": 4, "s": int(rng.integers(1 << 30)),
                           "group": "smp-%s-%d" % (kind, rep), "cost": 12})
+    for rep in range(2 if q else 8):
+        cases.append({"type": "driver", "kind": "uhf" if rep % 2 == 0 else "noci", "norb": 4, "nelec": [2, int(rng.choice([1, 2]))], "nchol": int(rng.integers(1, 4)),
+                      "nexp": 6, "shape": [int(rng.integers(1, 3)), int(rng.integers(2, 4))], "ntraj": int(rng.integers(3, 6)), "rdm1": "trial",
+                      "ene0": float(rng.normal()), "dt": 0.02, "nw": 4, "seed": int(rng.integers(0, 1000)), "s": int(rng.integers(1 << 30)),
+                      "group": "drv-%d" % rep, "cost": 14})
     for ne in ([(2, 1), (1, 1)] if q else [(2, 1), (1, 1), (2, 2), (1, 1)]):
         for rep in range(2 if q else 6):
             nchol = int(rng.choice([1, 2]))
@@ -312,8 +317,76 @@ def run_sampler(case):
             "counters": {"bookkeeping_steps": n_blocks * n_steps * nw, "sampler_blocks": n_blocks}}
 
 
+def run_driver(case):
+    """driver.fp_afqmc (single rank): every trajectory restarts from the initial population with the key the previous trajectory
+    returned, starting at PRNGKey(seed + rank); the rows of samples_raw.dat are (first block weight, first block energy) of the
+    trajectories, and the printed running mean is the weight-averaged block energy over trajectories.  The reference repeats the
+    documented loop with sampler.propagate_free, whose own output run_sampler compares with the Fock-space model."""
+    import contextlib
+    import io
+    import re
+
+    import jax.numpy as jnp
+    from jax import random
+
+    from ad_afqmc import config, driver, sampling
+
+    rng = np.random.default_rng(case["s"])
+    norb = case["norb"]
+    na, nb = case["nelec"]
+    nw, dt = case["nw"], case["dt"]
+    S = afqmc.make_system(case["kind"], norb, (na, nb), rng, walker_type="uhf", dt=dt, n_walkers=nw, nchol=case["nchol"], n_exp_terms=case["nexp"],
+                          rdm1=case["rdm1"], ene0=case["ene0"], chol_scale=0.6)
+    prop, trial, ham = S["prop"], S["trial"], S["ham"]
+    n_steps, n_blocks = case["shape"]
+    ntraj = case["ntraj"]
+    smp = sampling.sampler(n_prop_steps=n_steps, n_ene_blocks=ntraj, n_sr_blocks=1, n_blocks=n_blocks)
+    w0 = afqmc.noisy_walkers(rng, S, nw, noise=0.3)
+    options = {"seed": case["seed"], "save_walkers": False}
+    buf = io.StringIO()
+    with contextlib.redirect_stdout(buf):
+        driver.fp_afqmc(trials.ham_data_of(S["h0"], S["h1"], S["chol"], ene0=case["ene0"]), ham, prop, trial, dict(S["wave_data"]), smp, None, options,
+                        config.not_MPI(), init_walkers=[jnp.array(w0[0]), jnp.array(w0[1])])
+    raw = np.loadtxt("samples_raw.dat", dtype=complex).reshape(-1, 2)
+    # reference loop
+    hd, wdat = S["ham_data"], S["wave_data"]
+    pd = prop.init_prop_data(trial, wdat, hd, [jnp.array(w0[0]), jnp.array(w0[1])])
+    key = random.PRNGKey(case["seed"])
+    tot_e = np.zeros(n_blocks, dtype=complex)
+    tot_w = np.zeros(n_blocks, dtype=complex)
+    rows = []
+    for n in range(ntraj):
+        pd["key"] = key
+        _, be, bw, key = smp.propagate_free(ham, hd, prop, pd, trial, wdat)
+        be, bw = np.asarray(be), np.asarray(bw)
+        rows.append((bw[0], be[0]))
+        tot_w = tot_w + bw
+        tot_e = tot_e + bw * (be - tot_e) / tot_w
+    rows = np.array(rows)
+    ky = "C05/driver/%s" % case["kind"]
+    events = [ev("driver/one-row-per-trajectory", raw.shape[0] == ntraj, key=ky + "/rows", rows=int(raw.shape[0]), trajectories=ntraj)]
+    if raw.shape[0] == ntraj:
+        events.append(judge("driver/raw-weights-are-first-block-weights", float(np.max(np.abs(raw[:, 0] - rows[:, 0]) / np.abs(rows[:, 0]))), 1e-9, ky + "/raw-weights"))
+        events.append(judge("driver/raw-energies-are-first-block-energies", float(np.max(np.abs(raw[:, 1] - rows[:, 1]) / np.maximum(1.0, np.abs(rows[:, 1])))), 1e-9, ky + "/raw-energies"))
+        events.append(ev("driver/trajectories-use-fresh-fields", len({complex(np.round(r, 12)) for r in rows[:, 0]}) == ntraj, key=ky + "/fresh-fields"))
+    # the last printed running mean (printed every max(ntraj // 10, 1) = 1 trajectories here)
+    text = buf.getvalue()
+    last = [m for m in re.finditer(r"^\s*(\d+): \[(.*?)\]", text, re.S | re.M)]
+    printed = None
+    if last:
+        nums = re.findall(r"([-+]?\d+\.?\d*(?:e[-+]?\d+)?)\s*([-+]\s*\d+\.?\d*(?:e[-+]?\d+)?)j", last[-1].group(2))
+        if len(nums) == n_blocks and int(last[-1].group(1)) == ntraj - 1:
+            printed = np.array([complex(float(a), float(b.replace(" ", ""))) for a, b in nums])
+    if printed is not None:
+        # independent definition: sum_t w_t e_t / sum_t w_t per block
+        events.append(judge("driver/printed-mean-is-weighted-mean-over-trajectories", float(np.max(np.abs(printed - tot_e) / np.maximum(1.0, np.abs(tot_e)))), 5e-7, ky + "/running-mean"))
+    return {"events": events, "nontrivial": raw.shape[0] == ntraj and ntraj >= 2, "sample": {"kind": case["kind"], "trajectories": ntraj, "raw_rows": [[complex(a), complex(b)] for a, b in raw[:2]],
+                                                                                        "printed_mean_parsed": printed is not None},
+            "counters": {"driver_trajectories": ntraj, "driver_printed_means": int(printed is not None)}}
+
+
 def run_case(case):
-    return {"book": run_book, "taylor": run_taylor, "ladder": run_ladder, "sampler": run_sampler}[case["type"]](case)
+    return {"book": run_book, "taylor": run_taylor, "ladder": run_ladder, "sampler": run_sampler, "driver": run_driver}[case["type"]](case)
 
 
 def finalize(results, tier, seed):
